@@ -1524,7 +1524,8 @@ static std::vector<Call> weird_misc_calls(ArchK arch) {
   x.push_back(misc('D', U32, uint64_t(SIZE_MAX / 2), 1, "size-overflow")); x.push_back(misc('D', U8, 16, uint64_t(SIZE_MAX / 4), "size-overflow")); x.push_back(misc('D', uint64_t(TypeId::kUInt64), uint64_t(SIZE_MAX / 8) + 1, 8, "size-overflow"));
   x.push_back(misc('D', U8, 1, uint64_t(SIZE_MAX), "size-unallocatable"));
   // embed_label
-  for (uint64_t sz : {0ull, 1ull, 2ull, 3ull, 4ull, 8ull, 9ull, 16ull}) {
+  // (sizes above 2^32 whose low word alone would be a valid size: the nodes of Builder/Compiler store 32 bits)
+  for (uint64_t sz : {0ull, 1ull, 2ull, 3ull, 4ull, 8ull, 9ull, 16ull, 0x100000004ull, 0x100000000ull, 0xFFFFFFFF00000008ull}) {
     bool ok = sz == 0 || sz == 1 || sz == 2 || sz == 4 || sz == 8;
     x.push_back(misc('L', 1, sz, 0, ok ? nullptr : "label-data-size"));
     x.push_back(misc('L', 0, sz, 0, ok ? nullptr : "label-data-size"));
@@ -1532,7 +1533,7 @@ static std::vector<Call> weird_misc_calls(ArchK arch) {
   x.push_back(misc('L', 3, 0)); x.push_back(misc('L', 4, 4));
   x.push_back(misc('L', 12345, 0, 0, "label-invalid")); x.push_back(misc('L', INV, 4, 0, "label-invalid")); x.push_back(misc('L', 12345, 3, 0, "label-invalid"));
   // embed_label_delta
-  for (uint64_t sz : {0ull, 1ull, 3ull, 4ull, 8ull, 9ull}) {
+  for (uint64_t sz : {0ull, 1ull, 3ull, 4ull, 8ull, 9ull, 0x100000004ull, 0x8000000000000001ull}) {
     bool ok = sz == 0 || sz == 1 || sz == 4 || sz == 8;
     x.push_back(misc('X', 1, 0, sz, ok ? nullptr : "label-data-size"));
     x.push_back(misc('X', 0, 0, sz, ok ? nullptr : "label-data-size"));
